@@ -529,11 +529,15 @@ Inductive hop :=
 | HRet (r : rshape) (src : option path) (dst : path)
     (* a registered C++ function returned a value of shape r that denotes the target of src (an existing object)
        or a new C++ object (None); the resulting Boxed_Value is stored at dst *)
-| HBind (v : rvsrc) (tmp dst : path) (save_src save_res : option path).
+| HBind (v : rvsrc) (tmp dst : path) (save_src save_res : option path)
     (* var x = e / container insert / first assignment of an attribute (clone_if_necessary): the value at tmp is
        cloned unless it is a return value, in which case its handle is taken over.  A clone is a call of the script
        function clone(x): evaluating its guard leaves a copy of the source handle in the current call_params list
        (save_src), and its body, when the optimizer made it scopeless, a copy of the result handle (save_res). *)
+| HReseat (p : path).
+    (* a registered C++ function took the std::shared_ptr<T> held by the Boxed_Value at p by non-const reference and
+       assigned a new object to it: the place now owns a new object, and the old object loses this owning referrer
+       (the new object exists before the old pointer is released) *)
 
 Definition scratch : path := PRoot (RTemp 9999).
 
@@ -558,6 +562,7 @@ Definition lower (fl : rshape -> option flags) (h : hop) : list prim :=
       if rv then [PMove tmp dst]
       else [PClone tmp dst] ++ match ss with Some p => [PShare tmp p] | None => [] end
                             ++ match sr with Some p => [PShare dst p] | None => [] end
+  | HReseat p => [PCreate scratch true; PDrop p; PMove scratch p]
   end.
 
 Definition run_h (fl : rshape -> option flags) (hs : list hop) (s : state) : state * list event :=
